@@ -142,6 +142,8 @@ def generate_partitioned(r, opts):
         elif x < 0.7:
             a, b = O.gen_range(r, n)
             step = r.choice([1, 1, None, None, 2, 3, -1, -2])
+            if r.random() < 0.05:
+                step = r.choice([2**31, 2**32, 2**32 + 1, 2**62 + 1, 2**63 - 2, -(2**32), -(2**62) - 1, -(2**63) + 1])
             if r.random() < 0.5:
                 a, b = (0 if a is None else a), (n if b is None else b)
             # (None = omitted, as the Python layer passes a[i:j]: Slice::none())
